@@ -72,13 +72,34 @@ def wEnd (s : St) : St :=
 /-- `RebuildTunnels(new)` without anything in between -/
 def rebuild (s : St) (new : List Tunnel) : St := wEnd (wBegin s new)
 
-/-- `doReload`: `reloadFile` sets `Tunnels = next` and runs `onReload(prev, next)` =
-diff / closeOutdatedProxies / buildRouter; then `SyncConfigTunnels` ends in `RebuildTunnels(next)`
-(every tunnel of `next` already has a hostname in the modelled runs, so the sync changes nothing). -/
+/-- Targets are symbolic names; a name starting with `!` stands for a target string that
+`Config.validate` rejects (`url.Parse` fails, or the scheme is not http / https / tcp / unix). -/
+def targetOk (target : String) : Bool := target.toList.head? != some '!'
+
+/-- `Config.validate` for one tunnel (config.go): target parses with a supported scheme; header mode is
+one of "", target, hostname, custom; custom needs a header host. -/
+def Route.valid (r : Route) : Bool :=
+  targetOk r.target &&
+  (r.hdrMode = "" || r.hdrMode = "target" || r.hdrMode = "hostname" || r.hdrMode = "custom") &&
+  !(r.hdrMode = "custom" && r.hdrHost = "")
+
+/-- `next.validate() == nil` in `reloadFile`: every tunnel of the decoded file is valid -/
+def accepts (next : List Tunnel) : Bool := next.all (·.route.valid)
+
+/-- `doReload`: `reloadFile` decodes the file into a scratch config and validates THAT; a rejected
+file leaves the client exactly as it was (Tunnels, router, proxies; no callback, no sync). Otherwise
+it sets `Tunnels = next` and runs `onReload(prev, next)` = diff / closeOutdatedProxies / buildRouter;
+then `SyncConfigTunnels` ends in `RebuildTunnels(next)` (every tunnel of `next` already has a
+hostname in the modelled runs, so the sync changes nothing). -/
 def reload (s : St) (next : List Tunnel) : St :=
-  let d := inDiff s.tunnels next
-  let s1 : St := { s with tunnels := next, proxies := closeOutdated d s.proxies, router := buildRouter d next s.router }
-  rebuild s1 next
+  if accepts next then
+    let d := inDiff s.tunnels next
+    let s1 : St := { s with tunnels := next, proxies := closeOutdated d s.proxies, router := buildRouter d next s.router }
+    rebuild s1 next
+  else s
+
+/-- `doReload` when the file cannot be opened or decoded: `reloadFile` returns before touching anything -/
+def reloadUnreadable (s : St) : St := s
 
 /-- `tunnelRemovalWrapper` (UnpublishTunnel / ReleaseTunnel after the RPC succeeded): the FIRST tunnel
 with that hostname is removed, its proxy closed, the router entry dropped and the router rebuilt. -/
@@ -114,11 +135,13 @@ inductive Op where
   | reload (next : List Tunnel)
   | unpublish (h : String)
   | incoming (h : String)
+  | reloadUnreadable
 deriving Repr
 
 def step (s : St) : Op → St
   | .rebuild n => rebuild s n
   | .reload n => reload s n
+  | .reloadUnreadable => reloadUnreadable s
   | .unpublish h => unpublish s h
   | .incoming h => (incoming s h).1
 
@@ -128,7 +151,8 @@ def run (s : St) (ops : List Op) : St := ops.foldl step s
 
 /-- one scheduled event: a configuration change together with the hostnames of the connections that
 arrive while it holds `configMu`, or a connection arriving while nothing is in progress.
-`reload` has two locked sections (`reloadFile`+`onReload`, then the `RebuildTunnels` of the sync). -/
+`reload` has two locked sections (`reloadFile`+`onReload`, then the `RebuildTunnels` of the sync);
+a rejected reload has only the first, in which nothing changes. -/
 inductive Ev where
   | rebuild (new : List Tunnel) (during : List String)
   | reload (next : List Tunnel) (during1 during2 : List String)
@@ -156,9 +180,11 @@ after `buildRouter`): connections that arrive during a change wait and are resol
 def stepLocked (s : St) : Ev → St × List Served
   | .rebuild new d => serveAll (rebuild s new) d
   | .reload next d1 d2 =>
-    let a := serveAll (rebuild s next) d1
-    let b := serveAll (rebuild a.1 next) d2
-    (b.1, a.2 ++ b.2)
+    if accepts next then
+      let a := serveAll (rebuild s next) d1
+      let b := serveAll (rebuild a.1 next) d2
+      (b.1, a.2 ++ b.2)
+    else serveAll s (d1 ++ d2)
   | .unpublish h d => serveAll (unpublish s h) d
   | .arrive h => serveAll s [h]
 
